@@ -27,6 +27,7 @@ import (
 	"testing"
 	"time"
 
+	"github.com/ChainSafe/gossamer/dot/types"
 	"github.com/ChainSafe/gossamer/internal/log"
 	"github.com/ChainSafe/gossamer/internal/verifmc"
 	"github.com/ChainSafe/gossamer/lib/common"
@@ -34,6 +35,7 @@ import (
 
 type c15Op struct {
 	readd   bool // add the block with label target a second time
+	bad     bool // add a child of parent whose header has no BABE pre-digest (AddBlock fails after all other checks)
 	prune   bool
 	target  int  // prune: label
 	parent  int  // add: label of the parent
@@ -46,6 +48,9 @@ func (o c15Op) String() string {
 	}
 	if o.readd {
 		return fmt.Sprintf("readd(b%d)", o.target)
+	}
+	if o.bad {
+		return fmt.Sprintf("add-without-predigest(<-b%d)", o.parent)
 	}
 	mk := "S"
 	if o.primary {
@@ -116,6 +121,21 @@ func c15Exec(rootNum uint, ops []c15Op, c *c15Ctx) (*BlockTree, *c15Model) {
 				default:
 					c.out("AddBlock:again:not-held:error")
 				}
+			}
+			continue
+		}
+		if op.bad {
+			// correct parent and number, but no BABE pre-runtime digest: a block AddBlock refuses is not an
+			// added block, the tree must not hold it (the state check compares with the unchanged model)
+			h := &types.Header{ParentHash: m.hash[op.parent], Number: m.number[op.parent] + 1, StateRoot: common.Hash{0xbd, byte(i)}, Digest: types.NewDigest()}
+			err := bt.AddBlock(h, time.Unix(3000+int64(i), 0))
+			if err == nil {
+				m.push(h, op.parent, m.number[op.parent]+1, false, m.inTree[op.parent])
+				if last {
+					c.out("AddBlock:without-predigest:accepted")
+				}
+			} else if last {
+				c.out("AddBlock:without-predigest:rejected")
 			}
 			continue
 		}
@@ -653,10 +673,19 @@ func c15RunElem(e c15Elem, c *c15Ctx) {
 		c15Eval(e.rootNum, append(append([]c15Op{}, e.base...), c15Op{readd: true, target: x}), c)
 	}
 	for x := 0; x < e.n; x++ {
+		hb := append(append([]c15Op{}, e.base...), c15Op{bad: true, parent: x})
+		c15Eval(e.rootNum, hb, c)
+		// ... and what a later finalisation reports and keeps
+		for y := 0; y < e.n && e.n <= 4; y++ {
+			c15Eval(e.rootNum, append(append([]c15Op{}, hb...), c15Op{prune: true, target: y}), c)
+		}
+	}
+	for x := 0; x < e.n; x++ {
 		h1 := append(append([]c15Op{}, e.base...), c15Op{prune: true, target: x})
 		c15Eval(e.rootNum, h1, c)
 		for y := 0; y < e.n && e.n <= 5; y++ {
 			c15Eval(e.rootNum, append(append([]c15Op{}, h1...), c15Op{readd: true, target: y}), c)
+			c15Eval(e.rootNum, append(append([]c15Op{}, h1...), c15Op{bad: true, parent: y}), c)
 		}
 		for k := 1; k <= e.round2; k++ {
 			c15Adds(e.n, k, func(adds []c15Op) {
